@@ -10,6 +10,7 @@ import PM.FromDom
 import Proofs.Dom
 import Proofs.FromDom
 import Proofs.Placement
+import Proofs.PlacementValid
 namespace PM.C19
 open PM.Dom
 
@@ -402,6 +403,53 @@ theorem placement_content_prefix (S : Schema) (wsPre : TypeId → Bool) (hdet : 
   | none => simp [hr] at h3
   | some _ => rfl
 
+open PM.FromDom in
+/-- what the DOM walk must respect for the validity theorem: nodes it hands to `insert_node` are themselves
+    content-valid (text and leaf nodes always are; this matters for `getContent` rules only), and it calls
+    `close_extra` only with `open_end = False` (the code does: `current_pos`) -/
+def WalkOk (S : Schema) : Event → Prop
+  | .insertNode n => contentOk S n = true
+  | .closeExtra oe => oe = false
+  | _ => True
+
+open PM.FromDom in
+/-- **the finished document is content-valid** (partial validity of `parse`).
+    For every event list of a `parse` run (`is_open = False`, no `top_open`): if `finish` returns a
+    document — i.e. every `fill_before(…, True)` it needs succeeds — then in that document **every
+    non-leaf node's child-type sequence is accepted by its type's content automaton** (`contentOk`, the
+    content-expression clause of `Node.check`, recursively; the nodes filled in by `fill_before` /
+    `create_and_fill` included).
+
+    Hypotheses on the schema (both decidable, `det_of_detB`, `textStable_of_B`; checked on every schema
+    of the tie by the driver):
+    * `Det S` — the automata are deterministic;
+    * `TextStable S` — reading a text node leads to a state with the same edges and the same
+      acceptance as the state before.  Needed because `NodeContext.finish` strips a trailing
+      whitespace-only text node *after* `match` has advanced over it, and `Fragment.from_` merges adjacent
+      text nodes.  Without it the statement is FALSE for the real code as well: with
+      `fig: "hard_break image? (text | hard_break)"` the HTML `<figure><br><img src="a"> </figure>` parses to
+      `fig(hard_break, image)`, which `check()` rejects.
+
+    Full validity (`Schema.checkNode doc`) additionally needs: marks of every child allowed by its parent
+    and canonical (not covered here), attributes (computed by `compute_attrs`: present by construction, values
+    not checked by `check()`), and `accepts []` for leaf types (schema data). -/
+theorem placement_finish_valid_partial (S : Schema) (wsPre : TypeId → Bool) (hdet : Det S) (hts : TextStable S)
+    (pw : WS) (events : List Event) (hev : ∀ e ∈ events, WalkOk S e)
+    (st : FromDom.PState) (doc : Node) (rest : List Node)
+    (hrun : PState.run S wsPre (PState.init S false pw false) events = .ok st)
+    (hfin : st.finish S = .ok (some doc, rest)) : contentOk S doc = true := by
+  have hfo := finishOk_contentOk S hdet hts
+  have hc := run_spec S (fun n => contentOk S n = true) hfo wsPre (fun w => hdet w 0) events _ st
+    (init_coh S _ pw false) (by
+      intro e he
+      have := hev e he
+      cases e with
+      | insertNode n => intro m; rw [contentOk_withMarks]; exact this
+      | closeExtra oe => simp only [WalkOk] at this; subst this; exact hfo
+      | _ => trivial) hrun
+  have hf := run_flags S wsPre events _ st hrun
+  exact finish_valid S hdet hts st doc rest hc hf hfin
+
 section Examples
 open PM.FromDom
 -- how expressions are read
@@ -418,6 +466,25 @@ example : matchesAlt ok3 [2] "//p".toList = false := by decide
 example : matchesAlt ok3 [2] "p".toList = true := by decide
 example : matchesAlt ok3 [2, 1, 1, 0] "doc//p/".toList = true := by decide
 example : matchesAlt ok3 [2, 1, 1, 0] "doc/p/".toList = false := by decide
+
+-- a three-type schema: doc (p+), p (text*), text — the hypotheses hold, and a run
+private def mkT (name : String) (isText isInline isLeaf inl : Bool) (dfa : Array DfaState) : NodeType :=
+  { name := name, isText := isText, isInline := isInline, isLeaf := isLeaf, isAtom := isLeaf,
+    inlineContent := inl, isolating := false, defining := false, code := false,
+    dfa := dfa, markSet := none, attrs := [] }
+private def S3 : Schema :=
+  { nodes := #[mkT "doc" false false false false #[⟨false, [(1, 1)]⟩, ⟨true, [(1, 1)]⟩],
+               mkT "p" false false false true #[⟨true, [(2, 1)]⟩, ⟨true, [(2, 1)]⟩],
+               mkT "text" true true true false #[⟨true, []⟩]],
+    marks := #[], top := 0, textTy := 2 }
+example : Det S3 := det_of_detB S3 (by decide)
+example : TextStable S3 := textStable_of_B S3 (by decide)
+-- the stack after the walk inserted the text "hi" at top level: `find_place` wrapped it in a `p`; both
+-- contexts carry the match their content (+ open child) leads to
+example : ((PState.run S3 (fun _ => false) (PState.init S3 false .unset false) [.insertNode (.text [104, 105] [])]).toOption.map
+    (fun st => st.nodes.map (fun c => (c.ty, c.mtch, c.content)))) =
+    some [(some 0, some 1, []), (some 1, some 1, [.text [104, 105] []])] := by decide +kernel
+example : WalkOk S3 (.insertNode (.text [104, 105] [])) := rfl
 end Examples
 
 end PM.C19
